@@ -12,6 +12,11 @@ def cases(tier, seed):
     n_plain, n_ctc = BOUNDS[tier]
     for m in sp.structures_upto(n_plain):
         yield ('S', m)
+    # [a..*] groups (card_max == -1, as the UVL reader produces them)
+    for m in sp.structures_upto(min(n_plain - 1, 5), star=True):
+        if any(b == -1 and len(k) > 1 for (_p, _a, b, k) in sh.relations(m)) and \
+                not any(b == -1 and len(k) == 1 for (_p, _a, b, k) in sh.relations(m)):
+            yield ('S', m)
     ksets = list(cm.k1()) + list(cm.k2_subset())
     for n in range(2, n_ctc + 1):
         for m in sp.structures(n):
@@ -24,7 +29,7 @@ def plan(tier, what):
     nk = len(cm.k1()) + len(cm.k2_subset())
     return {
         'chunk': 400,
-        'bounds': 'S<=%d without constraints; S in 2..%d x %d constraint trees (K_1^3 + K_2 subset)' % (n_plain, n_ctc, nk),
+        'bounds': 'S<=%d without constraints (plus S<=%d with [a..*] groups); S in 2..%d x %d constraint trees (K_1^3 + K_2 subset)' % (n_plain, min(n_plain - 1, 5), n_ctc, nk),
         'rule': 'every structure state (ordered trees x relation partitions x all cardinalities 0<=a<=b<=s) '
                 'up to the bound, alone and with each constraint tree; non-trivial = has a group relation or a constraint; '
                 'oracle: ' + what,
